@@ -1,13 +1,175 @@
 /-
-C09 — state-level caching is transparent.  (work in progress: stub with the table obligation)
+C09 — State-level caching is transparent: cached results equal from-scratch results.
+
+Model: `MiciVerif/Model/Cache.lean` (heap of `ChainState`s, shared `_dependencies` dicts, both
+decorators, copies, read-only copies, pickle round trips, fresh states, in-place updates of the
+variable arrays, nested calls, auxiliary outputs, any number of system objects).
+Values are uninterpreted: a value is the provenance (variable versions) of its computation and
+the from-scratch value of method `m` on state `s` is `trueProv tbl cfg s sys m`.
+
+* `table_sound`   : the table extracted from `src/mici/systems.py` ON THIS RUN satisfies `DepsSound`.
+* `transparent`   : for every table with `DepsSound`, every configuration of system objects and
+                    every history whose in-place updates are safe, every call returns the
+                    from-scratch value on the current variables.
+* `transparent_noalias` : if no system method returns a state variable's own array, every
+                    history is safe (no side condition left).
+* `cache_irrelevant` : a call gives the same value on a heap whose caches were all emptied.
+* `unsound_table_is_stale`, `unsafe_inplace_is_stale` :
+                    the hypotheses cannot be dropped (concrete histories, by kernel evaluation).
+  (The clause "state writable" of `SafeIP` is vacuous on reachable heaps: read-only states are
+  frozen — copies by `copy(read_only=True)`, pickles by `__setstate__` — see `NoAliasInv.frozen`.)
 -/
-import MiciVerif.Model.Cache
+import MiciVerif.Lemmas.CacheNoAlias
 import MiciVerif.Generated.CacheDeps
 
 namespace MiciVerif.C09
 open MiciVerif.Cache
 
+/-- The dependency table generated from the current source declares, for every cached method of
+every concrete system class, all state variables its result depends on (transitively through
+the system methods it calls), auxiliary outputs depend on the same variables as the method that
+fills them, and nothing was un-analysable. -/
 theorem table_sound : DepsSound MiciVerif.Generated.cacheTable := by
+  decide +kernel
+
+private theorem transparent_from (tbl : Table) (cfg : Cfg) (hs : DepsSound tbl) :
+    ∀ (ops : List Op) (h0 : Heap), Inv tbl cfg h0 → SafeHist tbl cfg h0 ops →
+      ∀ h op out, (h, op, out) ∈ run tbl cfg h0 ops →
+        ∀ sid sys m, op = .call sid sys m → sid < h.nSt → (lookup tbl (cfg.clsOf sys) m).isSome →
+          ∃ v tr, out = .val v tr ∧ v.prov = trueProv tbl cfg (h.st sid) sys m := by
+  intro ops
+  induction ops with
+  | nil => intro h0 _ _ h op out hm; simp [run] at hm
+  | cons o ops ih =>
+    intro h0 hi hsafe h op out hm sid sys m hop hlt hl
+    simp only [run, List.mem_cons] at hm
+    rcases hm with hm | hm
+    · simp only [Prod.mk.injEq] at hm
+      obtain ⟨rfl, rfl, rfl⟩ := hm
+      subst hop
+      simp only [step, hlt, if_true]
+      exact ⟨_, _, rfl, (callTop_spec hs h hi sid sys m).2.2 hl⟩
+    · exact ih _ (inv_step hs h0 hi o hsafe.1) hsafe.2 h op out hm sid sys m hop hlt hl
+
+/-- **Transparency.**  For every dependency table satisfying `DepsSound`, every assignment of
+classes / return conventions / callable-ness / aliasing to any number of system objects, and
+every history of assignments, in-place updates, copies (also read-only), pickle round trips,
+fresh states and calls of cached or uncached methods on any of the states, in which every
+in-place update is safe (`SafeIP`: the state is writable or frozen, and the only cached values
+that are the updated array itself are entries of that state which the assignment invalidates):
+every call returns the from-scratch value on the current variables of the state it is called on.
+(`h` is the heap just before the call; a call does not change variables.) -/
+theorem transparent (tbl : Table) (cfg : Cfg) (hs : DepsSound tbl) (ops : List Op)
+    (hsafe : SafeHist tbl cfg Heap.init ops) :
+    ∀ h op out, (h, op, out) ∈ run tbl cfg Heap.init ops →
+      ∀ sid sys m, op = .call sid sys m → sid < h.nSt → (lookup tbl (cfg.clsOf sys) m).isSome →
+        ∃ v tr, out = .val v tr ∧ v.prov = trueProv tbl cfg (h.st sid) sys m :=
+  transparent_from tbl cfg hs ops Heap.init (inv_init tbl cfg) hsafe
+
+open MiciVerif.Generated in
+/-- non-vacuity: the generated table, a Euclidean and a Gaussian-Euclidean system object, a history with a copy, a
+pickle round trip, a read-only copy and assignments is safe. -/
+example : SafeHist cacheTable ⟨fun i => if i = 0 then cls_EuclideanMetricSystem else cls_GaussianEuclideanMetricSystem, fun _ _ => 1, fun _ _ => false, fun _ _ => none⟩
+    Heap.init [.call 0 0 m_h, .copy 0 false, .assign 1 .pos, .call 1 1 m_h, .pickle 1, .copy 2 true, .assign 3 .mom, .call 2 0 m_grad_neg_log_dens] := by
+  simp [SafeHist, SafeOp]
+
+/-! ### no aliasing ⇒ every history is safe -/
+
+/-- **Transparency without side condition.**  If no system method returns a state variable's
+own array (`aliasRet = none`: checked on the real classes by the harness on every run) then
+EVERY history — including arbitrary in-place updates, also attempted on read-only copies — is
+transparent. -/
+theorem transparent_noalias (tbl : Table) (cfg : Cfg) (hs : DepsSound tbl)
+    (hna : ∀ s m, cfg.aliasRet s m = none) (ops : List Op) :
+    ∀ h op out, (h, op, out) ∈ run tbl cfg Heap.init ops →
+      ∀ sid sys m, op = .call sid sys m → sid < h.nSt → (lookup tbl (cfg.clsOf sys) m).isSome →
+        ∃ v tr, out = .val v tr ∧ v.prov = trueProv tbl cfg (h.st sid) sys m := by
+  apply transparent tbl cfg hs ops
+  apply safe_of_noAlias tbl cfg hna
+  refine ⟨?_, ?_⟩
+  · intro i k v hc; simp only [Heap.init] at hc; split at hc <;> simp [St.empty] at hc
+  · intro i; simp only [Heap.init]; split <;> simp [St.empty]
+
+/-- non-vacuity of `transparent_noalias`: the generated table is sound and the configuration
+used by the harness for non-aliasing systems has `aliasRet = none`. -/
+example : DepsSound MiciVerif.Generated.cacheTable ∧
+    ∀ s m, (⟨fun _ => MiciVerif.Generated.cls_EuclideanMetricSystem, fun _ _ => 1, fun _ _ => false, fun _ _ => none⟩ : Cfg).aliasRet s m = none :=
+  ⟨table_sound, fun _ _ => rfl⟩
+
+/-! ### the cache is irrelevant for results -/
+
+/-- heap with every cache emptied (all `_dependencies` kept) -/
+def clearCaches (h : Heap) : Heap :=
+  { h with st := fun i => { h.st i with cache := fun _ => none } }
+
+/-- **Caching defeated gives the same results.**  On any heap reachable by a safe history, a
+call on state `sid` returns the same value as the same call after emptying every cache. -/
+theorem cache_irrelevant (tbl : Table) (cfg : Cfg) (hs : DepsSound tbl) (ops : List Op)
+    (hsafe : SafeHist tbl cfg Heap.init ops) (sid sys m : Nat)
+    (hl : (lookup tbl (cfg.clsOf sys) m).isSome) :
+    (callTop tbl cfg (finalHeap tbl cfg Heap.init ops) sid sys m).v.prov =
+      (callTop tbl cfg (clearCaches (finalHeap tbl cfg Heap.init ops)) sid sys m).v.prov := by
+  have hfin : ∀ (ops : List Op) (h0 : Heap), Inv tbl cfg h0 → SafeHist tbl cfg h0 ops →
+      Inv tbl cfg (finalHeap tbl cfg h0 ops) := by
+    intro ops
+    induction ops with
+    | nil => intro h0 hi _; exact hi
+    | cons o ops ih => intro h0 hi hsf; exact ih _ (inv_step hs h0 hi o hsf.1) hsf.2
+  have hi := hfin ops Heap.init (inv_init tbl cfg) hsafe
+  generalize finalHeap tbl cfg Heap.init ops = h at hi
+  have hc : Inv tbl cfg (clearCaches h) := by
+    refine ⟨hi.cellBound, hi.cellClosed, ?_, ?_⟩
+    · intro i k e hp; exact absurd rfl hp
+    · intro i k v e hv; cases hv
+  rw [(callTop_spec hs h hi sid sys m).2.2 hl, (callTop_spec hs _ hc sid sys m).2.2 hl]
+  rfl
+
+open MiciVerif.Generated in
+example : SafeHist cacheTable ⟨fun _ => cls_EuclideanMetricSystem, fun _ _ => 0, fun _ _ => false, fun _ _ => none⟩
+    Heap.init [.call 0 0 m_h, .assign 0 .mom, .copy 0 false, .call 1 0 m_h] := by
+  simp [SafeHist, SafeOp]
+
+/-! ### the hypotheses are necessary -/
+
+/-- for each call of the history: does it return a value different from the from-scratch value? -/
+def staleCalls (tbl : Table) (cfg : Cfg) (ops : List Op) : List Bool :=
+  (run tbl cfg Heap.init ops).map (fun t => match t.2.1, t.2.2 with
+    | .call sid sys m, .val v _ => decide (v.prov ≠ trueProv tbl cfg (t.1.st sid) sys m)
+    | _, _ => false)
+
+private def mkEntry (declared reads alias : VarSet) : Entry :=
+  { cls := 0, meth := 0, cached := true, withAux := false, declared := declared, declUnknown := false,
+    aux := [], reads := reads, writes := VarSet.empty, calls := [], condCalls := false, unknownReads := false,
+    trueDeps := reads, writesT := VarSet.empty, rank := 0, mayAlias := alias, stateOnly := true,
+    clsName := "C", methName := "m" }
+
+/-- `@cache_in_state("mom") def m(self, state): return f(state.pos)` -/
+def unsoundTable : Table := [mkEntry ⟨false, true, false⟩ ⟨true, false, false⟩ VarSet.empty]
+/-- `@cache_in_state("pos") def m(self, state): return state.pos` -/
+def aliasTable : Table := [mkEntry ⟨true, false, false⟩ ⟨true, false, false⟩ ⟨true, false, false⟩]
+
+def plainCfg : Cfg := ⟨fun _ => 0, fun _ _ => 0, fun _ _ => false, fun _ _ => none⟩
+def aliasCfg : Cfg := ⟨fun _ => 0, fun _ _ => 0, fun _ _ => false, fun _ _ => some .pos⟩
+
+/-- `DepsSound` cannot be dropped: with a method that declares `mom` but reads `pos` (the shape of
+the historical `GaussianEuclideanMetricSystem.dh2_dpos` defect) the history
+`call; state.pos = …; call` returns a stale value — and `DepsSound` rejects that table. -/
+theorem unsound_table_is_stale :
+    ¬ DepsSound unsoundTable ∧
+    staleCalls unsoundTable plainCfg [.call 0 0 0, .assign 0 .pos, .call 0 0 0] = [false, false, true] := by
+  decide +kernel
+
+/-- Safety of in-place updates cannot be dropped: with a (sound!) method that returns the position
+array itself, `call; copy; original.pos += …; call on the copy` returns a stale value on the copy
+(the copy shares the cached array object with the original).  By `transparent` this history is
+therefore not `SafeHist`. -/
+theorem unsafe_inplace_is_stale :
+    DepsSound aliasTable ∧
+    staleCalls aliasTable aliasCfg [.call 0 0 0, .copy 0 false, .assignIP 0 .pos, .call 1 0 0]
+      = [false, false, false, true] ∧
+    -- the same history is fine when the update rebinds the variable instead of mutating the array
+    staleCalls aliasTable aliasCfg [.call 0 0 0, .copy 0 false, .assign 0 .pos, .call 1 0 0, .call 0 0 0]
+      = [false, false, false, false, false] := by
   decide +kernel
 
 end MiciVerif.C09
